@@ -171,28 +171,63 @@ theorem layer_inv (g : Geom) (kind : BoxKind) (pg : Geom) (i : Intr) (size : BgS
 
 theorem roundX_spec (ry : Repeat) (size : BgSize) (pw : Rat) (p p' : Placed)
     (hres : roundX .round ry size pw p = .ok p') :
-    ∃ n : Int, 1 ≤ n ∧ p'.iw * (n : Rat) = pw ∧ p'.px = 0 ∧ p'.py = p.py := by
-  have hrr : (Repeat.round == Repeat.round) = true := by simp
-  simp only [roundX, hrr, if_true, bind, Except.bind, pure, Except.pure] at hres
-  rcases ht : roundTiles pw p.iw with e | ⟨n, s⟩
-  · simp [ht] at hres
-  · simp [ht] at hres
-    obtain ⟨h1, h2, _, _⟩ := roundTiles_spec pw p.iw n s ht
+    (p.iw ≠ 0 → ∃ n : Int, 1 ≤ n ∧ p'.iw * (n : Rat) = pw ∧ p'.px = 0) ∧ (p.iw = 0 → p' = p) ∧ p'.py = p.py := by
+  by_cases h0 : p.iw = 0
+  · simp [roundX, h0, pure, Except.pure] at hres
     subst hres
-    exact ⟨n, h1, h2, rfl, rfl⟩
+    exact ⟨fun h => absurd h0 h, fun _ => rfl, rfl⟩
+  · simp only [roundX, bind, Except.bind, pure, Except.pure] at hres
+    have hc : (Repeat.round == Repeat.round && p.iw != 0) = true := by simp [h0]
+    rw [if_pos hc] at hres
+    rcases ht : roundTiles pw p.iw with e | ⟨n, s⟩
+    · simp [ht] at hres
+    · simp [ht] at hres
+      obtain ⟨h1, h2, _, _⟩ := roundTiles_spec pw p.iw n s ht
+      subst hres
+      exact ⟨fun _ => ⟨n, h1, h2, rfl⟩, fun h => absurd h h0, rfl⟩
 
 theorem roundY_spec (rx : Repeat) (size : BgSize) (ph : Rat) (p p' : Placed)
     (hres : roundY rx .round size ph p = .ok p') :
-    ∃ n : Int, 1 ≤ n ∧ p'.ih * (n : Rat) = ph ∧ p'.py = 0 ∧ p'.px = p.px ∧ (rx = .round → p'.iw = p.iw) := by
-  have hrr : (Repeat.round == Repeat.round) = true := by simp
-  simp only [roundY, hrr, if_true, bind, Except.bind, pure, Except.pure] at hres
-  rcases ht : roundTiles ph p.ih with e | ⟨n, s⟩
-  · simp [ht] at hres
-  · simp [ht] at hres
-    obtain ⟨h1, h2, _, _⟩ := roundTiles_spec ph p.ih n s ht
+    (p.ih ≠ 0 → ∃ n : Int, 1 ≤ n ∧ p'.ih * (n : Rat) = ph ∧ p'.py = 0) ∧ (p.ih = 0 → p' = p) ∧
+    p'.px = p.px ∧ (rx = .round → p'.iw = p.iw) := by
+  by_cases h0 : p.ih = 0
+  · simp [roundY, h0, pure, Except.pure] at hres
     subst hres
-    refine ⟨n, h1, h2, rfl, rfl, fun h => ?_⟩
-    subst h; simp
+    exact ⟨fun h => absurd h0 h, fun _ => rfl, rfl, fun _ => rfl⟩
+  · simp only [roundY, bind, Except.bind, pure, Except.pure] at hres
+    have hc : (Repeat.round == Repeat.round && p.ih != 0) = true := by simp [h0]
+    rw [if_pos hc] at hres
+    rcases ht : roundTiles ph p.ih with e | ⟨n, s⟩
+    · simp [ht] at hres
+    · simp [ht] at hres
+      obtain ⟨h1, h2, _, _⟩ := roundTiles_spec ph p.ih n s ht
+      subst hres
+      refine ⟨fun _ => ⟨n, h1, h2, rfl⟩, fun h => absurd h h0, rfl, fun h => ?_⟩
+      subst h; simp
+
+/-- Since the repair, the `round` steps never raise: the division happens only for a non-zero image size. -/
+theorem roundTiles_total (positioning image : Rat) (h : image ≠ 0) : ∃ t, roundTiles positioning image = .ok t := by
+  simp [roundTiles, pyDiv, h, bind, Except.bind, pure, Except.pure]
+
+theorem roundX_total (rx ry : Repeat) (size : BgSize) (pw : Rat) (p : Placed) :
+    ∃ p', roundX rx ry size pw p = .ok p' := by
+  unfold roundX
+  by_cases hc : (rx == Repeat.round && p.iw != 0) = true
+  · have h0 : p.iw ≠ 0 := by simp at hc; exact hc.2
+    obtain ⟨t, ht⟩ := roundTiles_total pw p.iw h0
+    rw [if_pos hc]
+    simp [ht, bind, Except.bind, pure, Except.pure]
+  · rw [if_neg hc]; exact ⟨p, rfl⟩
+
+theorem roundY_total (rx ry : Repeat) (size : BgSize) (ph : Rat) (p : Placed) :
+    ∃ p', roundY rx ry size ph p = .ok p' := by
+  unfold roundY
+  by_cases hc : (ry == Repeat.round && p.ih != 0) = true
+  · have h0 : p.ih ≠ 0 := by simp at hc; exact hc.2
+    obtain ⟨t, ht⟩ := roundTiles_total ph p.ih h0
+    rw [if_pos hc]
+    simp [ht, bind, Except.bind, pure, Except.pure]
+  · rw [if_neg hc]; exact ⟨p, rfl⟩
 
 theorem roundY_not_round (rx ry : Repeat) (size : BgSize) (ph : Rat) (p p' : Placed) (hry : ry ≠ .round)
     (hres : roundY rx ry size ph p = .ok p') : p' = p := by
